@@ -51,6 +51,13 @@ def transforms():
     return TRANSFORMS
 
 
+def representable(x, kind):
+    """integer containers can only hold integral, non-null data"""
+    if kind not in ("int64", "int32"):
+        return True
+    return not any((isinstance(v, float) and math.isnan(v)) or float(v) != int(v) for v in x)
+
+
 def as_container(x, kind):
     if kind == "ndarray":
         return numpy.array(x, dtype=float)
@@ -58,6 +65,11 @@ def as_container(x, kind):
         return pandas.Series(list(x), dtype=float)
     if kind == "list":
         return list(x)
+    if kind in ("int64", "int32"):
+        # integer-dtype input (only for integral data): statistics must still be computed in floating point
+        if any((isinstance(v, float) and math.isnan(v)) or float(v) != int(v) for v in x):
+            raise Skip()
+        return numpy.array([int(v) for v in x], dtype=kind)
     if kind == "sparse":
         return spsparse.csc_matrix(numpy.array(x, dtype=float).reshape(len(x), 1))
     raise KeyError(kind)
@@ -243,6 +255,8 @@ def drv_scale(c, ctx, col):
         raise Skip()
     cfg = c.pick(SCALE_CFGS)
     kind = c.pick(ctx["containers"])
+    if not representable(x, kind):
+        raise Skip()
     fn = transforms()[cfg[0]]
     kw = cfg_kwargs(cfg)
     expr = cfg_expr(cfg)
@@ -276,6 +290,8 @@ def drv_scale(c, ctx, col):
     else:
         followups = ctx["followups"] if len(x) <= ctx.get("full_followups_upto", 99) else ctx["followups_short"]
     for new in followups:
+        if not representable(new, kind):
+            continue
         try:
             g2 = to_vec(fn(as_container(new, kind), **kw, _state=st))
         except Exception as e:  # noqa
@@ -430,6 +446,8 @@ def drv_poly(c, ctx, col):
     pos = c.upto(len(x) + 1) if ctx.get("nulls", True) else 0
     kind = c.pick(ctx["containers"] if len(x) <= ctx.get("containers_upto", 99) else ctx["containers"][:1])
     xn = insert_null(x, pos)
+    if not representable(xn, kind):
+        raise Skip()
     poly = transforms()["poly"]
     where = "poly(x, %d) x=%s (%s)" % (degree, vec_repr(xn), kind)
     rep = Reporter(col, where, {"x": vec_repr(xn), "degree": degree, "container": kind,
@@ -468,7 +486,9 @@ def drv_poly(c, ctx, col):
         except Exception as e:  # noqa
             rep(False, "raises", "poly(d) raised %s" % type(e).__name__)
     if res:
-        for new in (ctx["followups"] if grid is None else [[v] for v in pts] + [list(pts) + [NAN], [NAN, pts[2]]]):
+        for new in (ctx["followups"] if grid is None else [[v] for v in pts] + [list(pts) + [NAN], [NAN, pts[2]], list(pts)]):
+            if not representable(new, kind):
+                continue
             try:
                 g2 = to_vec(poly(as_container(new, kind), degree, _state=st))
             except Exception as e:  # noqa
@@ -631,6 +651,133 @@ def drv_elementwise_formula(c, ctx, col):
 
 # ---------------------------------------------------------------------------
 
+# ---------------------------------------------------------------------------
+# element-wise functions on non-float64 input: integer, bool, nullable-integer and float32 columns
+
+IALPHA = [-3, -1, 0, 1, 2, 19, 25, 64, 1000]
+# relative tolerance = 1e-9, or 8 eps of the floating type numpy computes in for that input (bool -> float16, float32)
+DTYPE_TOL = {"int64": TOL, "int32": TOL, "Int64": TOL, "pyint": TOL, "float32": 8 * 2.0 ** -23, "bool": 8 * 2.0 ** -10}
+
+
+def typed_alphabet(dtype):
+    if dtype == "bool":
+        return [False, True]
+    if dtype == "float32":
+        return [float(numpy.float32(v)) for v in EALPHA] + [-2.0, 25.0]
+    return list(IALPHA)
+
+
+def typed_container(x, dtype, kind):
+    if kind == "scalar":
+        v = x[0]
+        return v if dtype == "pyint" else {"int64": numpy.int64, "int32": numpy.int32, "float32": numpy.float32, "bool": numpy.bool_}[dtype](v)
+    if dtype == "Int64":
+        return pandas.Series(list(x), dtype="Int64")
+    arr = numpy.array(list(x), dtype={"pyint": "int64"}.get(dtype, dtype))
+    return pandas.Series(arr) if kind == "series" else arr
+
+
+def in_domain(name, x):
+    if name.startswith("log"):
+        return all(v > 0 for v in x)
+    return all(v <= 64 for v in x)
+
+
+def tclose(got, want, tol):
+    return bool(numpy.isfinite(got)) and abs(got - want) <= tol * max(abs(want), 1e-300)
+
+
+def drv_elementwise_typed(c, ctx, col):
+    dtype = c.pick(ctx["dtypes"])
+    x = c.seq(typed_alphabet(dtype), ctx["L"], 1)
+    name = c.pick(sorted(N.ELEMENTWISE))
+    if not in_domain(name, x):
+        raise Skip()
+    kinds = ["ndarray", "series", "scalar"]
+    if dtype == "Int64":
+        kinds = ["series"]
+    if dtype == "pyint":
+        kinds = ["scalar"]
+    kind = c.pick(kinds)
+    if kind == "scalar" and len(x) != 1:
+        raise Skip()
+    T = transforms()
+    tol = DTYPE_TOL[dtype]
+    where = "%s(%r) dtype=%s (%s)" % (name, x, dtype, kind)
+    rep = Reporter(col, where, {"x": x, "function": name, "dtype": dtype, "container": kind,
+                                "repro": "from formulaic.transforms import TRANSFORMS as T; import numpy; T[%r](numpy.array(%r, dtype=%r))"
+                                         % (name, x, "int64" if dtype in ("pyint", "Int64") else dtype)})
+    col.interesting()
+    col.sample({"x": x, "function": name, "dtype": dtype, "container": kind})
+    col.state((tuple(x), name, dtype))
+    try:
+        got = numpy.atleast_1d(to_vec(T[name](typed_container(x, dtype, kind))))
+    except Exception as e:  # noqa
+        rep(False, "raises", "raised %s: %s" % (type(e).__name__, str(e)[:100]))
+        return
+    want = [N.ELEMENTWISE[name](float(v)) for v in x]
+    ok = got.shape == (len(x),) and all(tclose(float(g), w, tol) for g, w in zip(got, want))
+    rep(ok, "elementwise-wrong-function", "%s(%r) [%s] = %r, the function its name denotes gives %r" % (name, x, dtype, got.tolist(), want))
+    partner = None
+    for a, b in N.INVERSE_PAIRS:
+        if name == a:
+            partner = b
+        if name == b:
+            partner = a
+    try:
+        back = numpy.atleast_1d(to_vec(T[partner](T[name](typed_container(x, dtype, kind)))))
+        # conditioning of the round trip: an error eps in y = f(x) becomes eps * |y| ln(base) in exp(y) (<= 150 here)
+        tb = tol * (8 + max(abs(w) for w in want) * 2.4) if partner.startswith("exp") else 8 * tol
+        okb = back.shape == (len(x),) and all(bool(numpy.isfinite(g)) and abs(float(g) - float(v)) <= tb * max(abs(float(v)), 1.0) for g, v in zip(back, x))
+        rep(okb, "inverse-pair", "%s(%s(%r)) [%s] = %r, expected the argument back" % (partner, name, x, dtype, back.tolist()))
+    except Exception as e:  # noqa
+        rep(False, "raises", "%s(%s(x)) raised %s: %s" % (partner, name, type(e).__name__, str(e)[:100]))
+
+
+def drv_elementwise_typed_formula(c, ctx, col):
+    from formulaic import model_matrix
+    dtype = c.pick(ctx["dtypes"])
+    x = c.seq(typed_alphabet(dtype), ctx["L"], 1)
+    output = c.pick(ctx["outputs"])
+    if not all(v <= 64 for v in x):
+        raise Skip()      # exp(1000) overflows; large values are covered by the direct sub-check for the logarithms
+    names = [n for n in sorted(N.ELEMENTWISE) if in_domain(n, x)]
+    partner = {}
+    for a, b in N.INVERSE_PAIRS:
+        partner[a], partner[b] = b, a
+    terms = ["%s(x)" % n for n in names] + ["%s(%s(x))" % (partner[n], n) for n in names]
+    formula = " + ".join(terms) + " - 1"
+    tol = DTYPE_TOL[dtype]
+    where = "model_matrix(element-wise functions) x=%r dtype=%s output=%s" % (x, dtype, output)
+    rep = Reporter(col, where, {"x": x, "dtype": dtype, "formula": formula, "output": output,
+                                "repro": "model_matrix(%r, pandas.DataFrame({'x': pandas.Series(%r, dtype=%r)}), output=%r)" % (formula, x, dtype, output)})
+    col.interesting()
+    col.sample({"x": x, "dtype": dtype, "formula": formula, "output": output})
+    col.state((tuple(x), dtype, output))
+    df = pandas.DataFrame({"x": typed_container(x, dtype, "series")})
+    try:
+        mm = model_matrix(formula, df, output=output)
+        a = dense(mm)
+    except Exception as e:  # noqa
+        rep(False, "raises", "model_matrix raised %s: %s" % (type(e).__name__, str(e)[:200]))
+        return
+    cols = list(mm.model_spec.column_names)
+    if not rep(cols == terms and a.shape == (len(x), len(terms)), "names", "columns %r (shape %r), expected %r for %d rows" % (cols, a.shape, terms, len(x))):
+        return
+    for j, t in enumerate(terms):
+        sub = Reporter(col, where + " term=" + t, dict(rep.detail, term=t))
+        if j < len(names):
+            want = [N.ELEMENTWISE[names[j]](float(v)) for v in x]
+            sub(all(tclose(float(g), w, tol) for g, w in zip(a[:, j], want)), "elementwise-wrong-function",
+                "column %s = %r, the function its name denotes gives %r" % (t, a[:, j].tolist(), want))
+        else:
+            n = names[j - len(names)]
+            inner = [abs(N.ELEMENTWISE[n](float(v))) for v in x]
+            tb = tol * (8 + max(inner) * 2.4) if partner[n].startswith("exp") else 8 * tol
+            sub(all(bool(numpy.isfinite(g)) and abs(float(g) - float(v)) <= tb * max(abs(float(v)), 1.0) for g, v in zip(a[:, j], x)), "inverse-pair",
+                "column %s = %r, expected x = %r back" % (t, a[:, j].tolist(), list(x)))
+
+
 # (offset, step) of the grids x = o + h*d: uniformly rescaled data (absolute thresholds) and a large common offset with
 # a small spread (cancellation in one-pass formulas); kappa = |o|/h ranges up to 1e9
 SCALE_GRIDS = [(0.0, 1e-8), (0.0, 1e-4), (0.0, 1e4), (0.0, 1e8), (1e3, 1e-3), (1e6, 1.0), (-1e6, 1.0), (1e6, 1e-3), (1e8, 1.0), (1.7e9, 1.0)]
@@ -683,19 +830,21 @@ def subchecks(tier, seed):
             bounds={"alphabet": alpha, "length": "2..%d" % Lf, "degree": "all feasible degrees 1..3 in one formula", "null": "none or every position",
                     "na_action": ["drop", "ignore"], "outputs": outs, "followup_frame": alpha + ["nan"]}),
         # --- data with a large common offset and a small spread, and uniformly rescaled data (x = o + h*d)
-        Sub("scale-grids", drv_scale, {"L": 3 if quick else 4, "containers": ["ndarray"] if quick else ["ndarray", "series"],
+        Sub("scale-grids", drv_scale, {"L": 3 if quick else 4, "containers": ["ndarray", "int64", "int32"] if quick else ["ndarray", "series", "int64", "int32"],
                                        "grids": SCALE_GRIDS, "D": [0.0, 1.0, 3.0]}, shard_depth=3,
             bounds={"x": "o + h*d, d every vector of length 2..%d over {0, 1, 3}" % (3 if quick else 4), "(o, h)": [list(g) for g in SCALE_GRIDS],
-                    "configurations": cfgs, "followup_vectors": "o + h*{-1,0,1,2,3,10}: singletons, 6 pairs, all of them + 0.0"}),
+                    "configurations": cfgs, "followup_vectors": "o + h*{-1,0,1,2,3,10}: singletons, 6 pairs, all of them + 0.0",
+                    "containers": "float64 ndarray (thorough: + Series); int64 / int32 ndarray for the integral grids"}),
         Sub("scale-grids-formula", drv_scale_formula, {"L": 3, "outputs": outs, "grids": SCALE_GRIDS_F if quick else SCALE_GRIDS, "D": [0.0, 1.0, 3.0]},
             shard_depth=3,
             bounds={"x": "o + h*d, d every vector of length 2..3 over {0, 1, 3}", "(o, h)": [list(g) for g in (SCALE_GRIDS_F if quick else SCALE_GRIDS)],
                     "configurations": "all %d in one formula" % len(SCALE_CFGS), "outputs": outs}),
-        Sub("poly-grids", drv_poly, {"L": 4 if quick else 5, "maxdeg": 3 if quick else 4, "containers": ["ndarray"], "nulls": False,
+        Sub("poly-grids", drv_poly, {"L": 4 if quick else 5, "maxdeg": 3 if quick else 4, "containers": ["ndarray", "int64"], "nulls": False,
                                      "grids": POLY_GRIDS, "D": [0.0, 1.0, 2.0, 5.0] if quick else [0.0, 1.0, 2.0, 3.0, 5.0]}, shard_depth=3,
             bounds={"x": "o + h*d, d every vector of length 2..%d over %s" % ((4, "{0,1,2,5}") if quick else (5, "{0,1,2,3,5}")),
                     "(o, h)": [list(g) for g in POLY_GRIDS], "degree": "1..%d" % (3 if quick else 4),
-                    "extra_oracle": "poly(o + h*d) == poly(d) (invariance under change of origin and units)"}),
+                    "extra_oracle": "poly(o + h*d) == poly(d) (invariance under change of origin and units)",
+                    "containers": "float64 ndarray; int64 ndarray for the integral grids"}),
         Sub("poly-grids-formula", drv_poly_formula, {"L": 3 if quick else 4, "outputs": outs, "nulls": False, "grids": POLY_GRIDS_F if quick else POLY_GRIDS,
                                                      "D": [0.0, 1.0, 2.0, 5.0]}, shard_depth=3,
             bounds={"x": "o + h*d, d every vector of length 2..%d over {0,1,2,5}" % (3 if quick else 4),
@@ -703,6 +852,14 @@ def subchecks(tier, seed):
         Sub("elementwise-direct", drv_elementwise, {"L": 2 if quick else 3}, shard_depth=2,
             bounds={"alphabet": [fmt(a) for a in EALPHA], "length": "1..%d" % (2 if quick else 3), "functions": sorted(N.ELEMENTWISE),
                     "containers": ["ndarray", "series", "scalar"]}),
+        Sub("elementwise-dtypes", drv_elementwise_typed, {"L": 2 if quick else 3, "dtypes": ["int64", "int32", "Int64", "pyint", "bool", "float32"]}, shard_depth=3,
+            bounds={"alphabet": {"integers": IALPHA, "bool": [False, True], "float32": "float32(E) + {-2, 25}"}, "length": "1..%d" % (2 if quick else 3),
+                    "dtypes": ["int64", "int32", "pandas Int64", "python int (scalar)", "bool", "float32"], "containers": ["ndarray", "series", "scalar"],
+                    "domain": "logarithms: all values > 0; exponentials: all values <= 64"}),
+        Sub("elementwise-dtypes-formula", drv_elementwise_typed_formula, {"L": 2 if quick else 3, "dtypes": ["int64", "int32", "Int64", "bool", "float32"],
+                                                                          "outputs": ["pandas"] if quick else ["pandas", "sparse", "numpy"]}, shard_depth=3,
+            bounds={"length": "1..%d" % (2 if quick else 3), "dtypes": ["int64", "int32", "pandas Int64", "bool", "float32"],
+                    "outputs": ["pandas"] if quick else ["pandas", "sparse", "numpy"], "values": "<= 64"}),
         Sub("elementwise-formula", drv_elementwise_formula, {"L": 2 if quick else 3, "outputs": ["pandas", "sparse", "numpy"]}, shard_depth=2,
             bounds={"alphabet": [fmt(a) for a in EALPHA], "length": "1..%d" % (2 if quick else 3), "outputs": ["pandas", "sparse", "numpy"]}),
     ]
